@@ -83,11 +83,10 @@ if not PLAIN:
 def reset_global_state():
     """Every harness execution starts from a fresh-process state of the carriers listed in DESIGN appendix B."""
     global_config.high_compat_mode = False
-    try:
-        sw.write_struct.cache_clear()
-        sa_mod.ushort.cache_clear()
-    except AttributeError:
-        pass
+    for m in (sw, sa_mod):
+        for f in list(vars(m).values()):
+            if hasattr(f, 'cache_clear'):
+                f.cache_clear()
 
 
 def new_file(n_lf=1):
